@@ -22,7 +22,7 @@ type Node struct {
 	ID    uint64
 	State distributed.State
 	Q     *memberlist.TransmitLimitedQueue
-	looks int
+	looks int64 // atomic: Deliver is also called from the concurrent programs of C20
 }
 
 // NewNode builds a replica the way cmd/wasp does (NewState with a TransmitLimitedQueue);
@@ -59,12 +59,12 @@ var LookTopics = []string{"mp/a/", "mp/", "mp/a/b", "mp//b", "mp/a", "mp/b", "mp
 
 // Look performs the reads; the answers are discarded here (ViewOf compares the final ones).
 func (n *Node) Look() {
-	n.looks++
-	if n.looks%5 == 0 {
+	k := atomic.AddInt64(&n.looks, 1)
+	if k%5 == 0 {
 		n.State.Topics().Get([]byte("mp/a/+"))
 		return
 	}
-	n.State.Subscriptions().ByPattern([]byte(LookTopics[n.looks%5-1]))
+	n.State.Subscriptions().ByPattern([]byte(LookTopics[k%5-1]))
 }
 
 // Snapshot / MergeSnapshot are the full-state exchange.
